@@ -49,7 +49,7 @@ VOCAB = gen.DANGEROUS + gen.NONSTD + [("ctypes", "CDLL"), ("ctypes.util", "find_
                                       ("builtins", "open"), ("builtins", "compile"), ("importlib", "import_module"),
                                       ("marshal", "loads"), ("pickle", "loads"), ("_pickle", "loads"),
                                       ("runpy", "run_path"), ("pty", "spawn"), ("webbrowser", "open"),
-                                      ("vp_sink", "ident"), ("vp_other", "hit")]
+                                      ("vp_sink", "ident"), ("vp_other", "hit")] + gen.UNLOADED_STDLIB
 ARGS = ["vp_marker_1 + 1", "echo vp_marker_2", "vp_canary_0", "/nonexistent/vp_marker_3"]
 
 
@@ -65,7 +65,15 @@ def inputs(ctx):
             g = gen.push_global(r, m, n)
             yield f"voc-import-{r}", g + b".", True
             yield f"voc-import-{r}-pop", g + b"0N.", True
+        # argument-less instantiation (OBJ / INST / REDUCE / NEWOBJ with no arguments) takes its own paths in
+        # the pickle VM (cls() vs cls.__new__(cls)), so an interpreter may be tempted to look the class up
         for r in gen.RESOLVE_OPS:
+            for c in gen.CALL_OPS:
+                call0 = gen.make_call(r, c, m, n, [])
+                if call0 is not None:
+                    yield f"voc-call0-{r}-{c}", call0 + b".", True
+                    yield f"voc-call0-{r}-{c}-pop", gen.frame(call0 + b"0N.", "proto2"), True
+        for r in gen.RESOLVE_OPS + ["GLOBAL-memo-collide", "STACK_GLOBAL-via-memo"]:
             for c in gen.CALL_OPS:
                 call = gen.make_call(r, c, m, n, [rng.choice(ARGS)])
                 if call is None:
